@@ -119,6 +119,9 @@ type c17world struct {
 	rawMu     sync.Mutex
 	rawByAddr map[string]*c17raw
 	stopped   bool // Router.Stop was called (op astop)
+	// an error of the harness's own plumbing (a dial that fails under load, a write on a connection the kernel
+	// reset): the rest of the case is not run and the case is counted as inconclusive, never as a failure
+	incon string
 }
 
 func (w *c17world) keyOf(k int) *key.Pair {
@@ -252,6 +255,12 @@ func c17refKey(tok string) string {
 		copy(id[:], b)
 		return fmt.Sprintf("r%x", id[:])
 	}
+	if strings.HasPrefix(tok, "x") {
+		// a router-level identifier used through a service's Context: the same set as r<hex>
+		if p := strings.Split(tok[1:], "/"); len(p) == 2 {
+			return c17refKey("r" + p[1])
+		}
+	}
 	return tok
 }
 
@@ -264,7 +273,7 @@ func (w *c17world) setID(tok string) (network.PeerSetID, *onet.Context, bool) {
 		}
 		return network.NewPeerSetID(b), nil, true
 	}
-	if strings.HasPrefix(tok, "c") {
+	if strings.HasPrefix(tok, "c") || strings.HasPrefix(tok, "x") {
 		p := strings.Split(tok[1:], "/")
 		if len(p) != 2 {
 			return none, nil, false
@@ -277,6 +286,10 @@ func (w *c17world) setID(tok string) (network.PeerSetID, *onet.Context, bool) {
 		svc, _ := w.srv.Service(name).(*c17Service)
 		if svc == nil {
 			return none, nil, false
+		}
+		if tok[0] == 'x' {
+			// the identifier is made by network.NewPeerSetID (as r<hex>), the call goes through this service's Context
+			return network.NewPeerSetID(b), svc.ctx, true
 		}
 		return svc.ctx.NewPeerSetID(b), svc.ctx, true
 	}
@@ -369,6 +382,10 @@ func c17exec(c *h.Ctx, cs *h.Case) {
 	for _, op := range cs.Ops {
 		tk := strings.Fields(op)
 		obs := "bad-op"
+		if w.incon != "" {
+			cs.Impl = append(cs.Impl, "not-run")
+			continue
+		}
 		switch {
 		case len(tk) == 3 && tk[1] == "open" && (tk[2] == "tcp" || tk[2] == "local") && w.srv == nil:
 			obs = w.open(tk[2])
@@ -506,7 +523,7 @@ func c17exec(c *h.Ctx, cs *h.Case) {
 			if ok && err == nil {
 				in, err := w.newInst(k, f)
 				if err != nil {
-					cs.Fail("harness", err.Error())
+					w.incon = "a peer's router could not be made: " + err.Error()
 					obs = "harness-error"
 					break
 				}
@@ -565,7 +582,7 @@ func c17exec(c *h.Ctx, cs *h.Case) {
 			if ok {
 				in, err := w.newInst(k, f)
 				if err != nil {
-					cs.Fail("harness", err.Error())
+					w.incon = "a peer's router could not be made: " + err.Error()
 					obs = "harness-error"
 					break
 				}
@@ -614,6 +631,12 @@ func c17exec(c *h.Ctx, cs *h.Case) {
 		tr = "tcp"
 	}
 	cs.Outcome = tr + " " + strings.Join(tl, " ")
+	if w.incon != "" && cs.Oracle != "fail" {
+		c.Count("inconclusive")
+		cs.NoModel, cs.Trivial = true, true
+		cs.Outcome = "inconclusive"
+		cs.Msg = "inconclusive (harness plumbing): " + w.incon
+	}
 }
 
 func c17before(init bool, want []int) string {
@@ -728,6 +751,15 @@ func c17gen(c *h.Ctx, yield func(*h.Case)) {
 			"c17 set r01 2", "c17 areident 0 1:2", "c17 amsg 0 4")
 		// Router.Stop while one goroutine stands before the test's consequence (registration), one before its launch,
 		// one connection is served and one has not said who it is: nothing is dispatched afterwards
+		// one set, three entry points (the router, the Contexts of two services): whoever writes, everybody reads the same
+		emit("corpus-set-read-across-entry-points",
+			"c17 open "+tr,
+			"c17 get x1/01",
+			"c17 set r01 1,2", "c17 get x1/01", "c17 get x2/01",
+			"c17 set r01 3", "c17 get x1/01", "c17 offer 1 1", "c17 offer 3 2",
+			"c17 set x2/01 4", "c17 get x1/01", "c17 get r01", "c17 get x2/01", "c17 offer 3 3", "c17 offer 4 4",
+			"c17 set x1/01 -", "c17 get x2/01", "c17 get x1/01", "c17 get r01", "c17 offer 4 5",
+			"c17 set c1/01 5", "c17 get x1/01", "c17 get c1/01", "c17 get c2/01")
 		stopOps := []string{
 			"c17 open " + tr,
 			"c17 set r01 1,2",
@@ -970,6 +1002,13 @@ func c17gen(c *h.Ctx, yield func(*h.Case)) {
 			}
 			return strconv.Itoa(k)
 		}
+		// a router-level set is written and read through the router or through either service's Context
+		via := func(tok string) string {
+			if tok[0] == 'r' && r.Intn(2) == 0 {
+				return fmt.Sprintf("x%d/%s", 1+r.Intn(2), tok[1:])
+			}
+			return tok
+		}
 		ops := []string{"c17 open " + tr}
 		msg := 0
 		accepted := map[int]bool{}
@@ -990,9 +1029,9 @@ func c17gen(c *h.Ctx, yield func(*h.Case)) {
 				if len(ps) > 0 {
 					l = strings.Join(ps, ",")
 				}
-				ops = append(ops, fmt.Sprintf("c17 set %s %s", sets[r.Intn(nsets)], l))
+				ops = append(ops, fmt.Sprintf("c17 set %s %s", via(sets[r.Intn(nsets)]), l))
 			case x < 5:
-				ops = append(ops, "c17 get "+sets[r.Intn(nsets)])
+				ops = append(ops, "c17 get "+via(sets[r.Intn(nsets)]))
 			case x < 9:
 				k := 1 + r.Intn(npeers)
 				ops = append(ops, fmt.Sprintf("c17 offer %s %d", ident(k), msg))
